@@ -25,7 +25,7 @@ def _spec(draw):
   else:
     level = draw(st.sampled_from([0.9, 0.8, 0.5])) if draw(st.booleans()) else draw(st.floats(0.02, 0.995, exclude_min=True))
   return {'frame': fs, 'metric': draw(st.sampled_from(['tbr_response', 'tbr_cost'])), 'tails': tails, 'level': level,
-          'refit': draw(st.booleans()), 'scribble': draw(st.booleans())}
+          'refit': draw(st.booleans()), 'scribble': draw(st.booleans()), 'summary_first': draw(st.booleans())}
 
 
 def strategy(tier):
@@ -101,6 +101,13 @@ def run(spec):
         viol.append(('C18:input-frame-modified', det))
       frames.scribble(df_in, truth['names'])
       cls.append('caller-edits-frame-after-fit')
+    if spec.get('summary_first'):
+      # the iROAS summary is read before the effect series are asked for (same fitted object)
+      try:
+        m.summary(level=0.8, tails=2, nsims=50, random_state=3)
+      except Exception:  # pylint: disable=broad-except
+        pass
+      cls.append('summary-read-first')
     ts = m.estimate_pointwise_and_cumulative_effect(metric=metric, level=spec['level'], tails=spec['tails'])
   except Exception as e:  # pylint: disable=broad-except
     kind = core.crash_kind('C18', e)
